@@ -425,7 +425,9 @@ def ob_bad_power():
 # ------------------------------------------------------------------ bounded: the real solvers
 def _solver_checks(s, ch, Kk, Ns, P, tol=1e-6, exact_power=True, aligned=False, power_tol=None):
     # the MMSE solver meets the power constraint through a Newton search (scipy default tolerance; its own acceptance test is P/1e6)
-    power_tol = (1e-8 if exact_power else 1e-6) if power_tol is None else power_tol
+    # "never exceed": 1e-8 relative for every solver (the MMSE solver scales its precoder back onto the constraint when the root finder
+    # of the Lagrange multiplier stops above it - fix 947c25e; before that fix the excess reached 5e-6)
+    power_tol = 1e-8 if power_tol is None else power_tol
     Pv = np.ones(Kk) * P if np.isscalar(P) else np.array(P, dtype=float)
     for k in range(Kk):
         F, fF = s.F[k], s.full_F[k]
